@@ -3,8 +3,6 @@ export SEEDED_OUT=/verif/seeded
 T=tools/evalmutant.py
 [ -d /tmp/mut/w5-C07/MUTANT1 ] && python3 $T /tmp/mut/w5-C07 MUTANT1 C07-m9 C07 C08
 [ -d /tmp/mut/w5-C07/MUTANT2 ] && python3 $T /tmp/mut/w5-C07 MUTANT2 C07-m10 C07 C08
-[ -d /tmp/mut/w5-C10/MUTANT1 ] && python3 $T /tmp/mut/w5-C10 MUTANT1 C10-m9 C10 C09
-[ -d /tmp/mut/w5-C10/MUTANT2 ] && python3 $T /tmp/mut/w5-C10 MUTANT2 C10-m10 C10 C09
 [ -d /tmp/mut/w5-C12/MUTANT1 ] && python3 $T /tmp/mut/w5-C12 MUTANT1 C12-m9 C12 C13 C14
 [ -d /tmp/mut/w5-C12/MUTANT2 ] && python3 $T /tmp/mut/w5-C12 MUTANT2 C12-m10 C12 C13 C14
 [ -d /tmp/mut/w5-C13/MUTANT1 ] && python3 $T /tmp/mut/w5-C13 MUTANT1 C13-m9 C13 C14 C12
@@ -17,4 +15,6 @@ T=tools/evalmutant.py
 [ -d /tmp/mut/w5-C19/MUTANT2 ] && python3 $T /tmp/mut/w5-C19 MUTANT2 C19-m10 C19 C03
 [ -d /tmp/mut/w5-C20/MUTANT1 ] && python3 $T /tmp/mut/w5-C20 MUTANT1 C20-m9 C20 C14
 [ -d /tmp/mut/w5-C20/MUTANT2 ] && python3 $T /tmp/mut/w5-C20 MUTANT2 C20-m10 C20 C14
+[ -d /tmp/mut/w5-C10/MUTANT1 ] && python3 $T /tmp/mut/w5-C10 MUTANT1 C10-m9 C10 C09
+[ -d /tmp/mut/w5-C10/MUTANT2 ] && python3 $T /tmp/mut/w5-C10 MUTANT2 C10-m10 C10 C09
 exit 0
